@@ -33,6 +33,10 @@ def handleBuiltin (st : St) (b : String) (parts : List (List String)) : String :
 def handle (st : St) (line : String) : St × Option String :=
   let parts := splitBar line
   let tidOf : Option String := match parts with | (_ :: tid :: _) :: _ => some tid | _ => none
+  if line.startsWith "RS " then
+    (match parts with
+     | [_, [mism, first]] => (st, some (if mism == "0" then "agree" else "dev-viol concurrent-call-differs-from-sequential " ++ first))
+     | _ => (st, some "skip malformed")) else
   if line.startsWith "BH " then (st, some (opBufferHistory st parts)) else
   if line.startsWith "J" then
     (match parts with
@@ -104,6 +108,7 @@ def handle (st : St) (line : String) : St × Option String :=
     | some "C" => (st, some (opCmp st head path arg out))
     | some "A" => (st, some (opAssign st head path arg out))
     | some "LC" => (st, some (opLC st head path arg out))
+    | some "GW" => (st, some (opAlias st head path arg out))
     | some "D" => (st, some (opDeq st head path arg out))
     | some "CY" => (st, some (opCycle st [head, path, arg, out]))
     | _ => (st, some "skip unknown-op")
